@@ -502,6 +502,24 @@ func runC03(w *World, c *Check) {
 					c.Ok("C03.verify", FuncKey(vf), key, where, "success is the forwarded result of another ContextToken.Verify")
 					continue
 				}
+				// a result assembled from several sources (a φ, the returns of a helper the tail was
+				// moved into): every source that is not the constant false is a forwarded Verify
+				{
+					allForwarded, any := true, false
+					for _, lf := range vfa.LeafValues(v) {
+						if k, isK := lf.v.(*ssa.Const); isK && k.Value != nil && k.Value.String() == "false" {
+							continue
+						}
+						any = true
+						if !isVerifyCall(lf.v) {
+							allForwarded = false
+						}
+					}
+					if any && allForwarded {
+						c.Ok("C03.verify", FuncKey(vf), key, where, "success is the forwarded result of another ContextToken.Verify")
+						continue
+					}
+				}
 				if len(apPass1) > 0 && len(apPass2) > 0 &&
 					vfa.PathAvoiding(apPass1, []Exit{x}) == nil && vfa.PathAvoiding(apPass2, []Exit{x}) == nil {
 					c.Ok("C03.verify", FuncKey(vf), key, where, "success is returned only under service.VerifyAPREQ ok ∧ err == nil")
